@@ -1,4 +1,6 @@
 import KV.Proofs.ValSetStep
+import KV.Proofs.ValSetUpdateMain
+import KV.Proofs.ValSetPath
 /-!
 # C12 — Proposer rotation is the specified fair round-robin; set updates are well-formed
 
@@ -228,11 +230,124 @@ def NoStarvationStatement : Prop :=
     (Spec.run (Spec.total l) k l).count v.addr = 0 →
     (k : Int) * v.power ≤ 2 * (l.length : Int) * Spec.total l + l.length
 
-/-! ## non-vacuity and the F1 witness -/
-
 def v (a : Nat) (p q : Int) : Validator := { addr := a, power := p, prio := q }
 def okOf {α} : Except Err α → Option α | .ok x => some x | .error _ => none
 def errOf {α} : Except Err α → Option Err | .ok _ => none | .error e => some e
+
+/-! ## (5b) the rejection rule (verification phase) -/
+
+/-- what `processChanges` accepts, spelled out -/
+theorem validChanges_iff (cs : List Validator) :
+    ¬ ValidChanges cs ↔
+      (¬ (cs.map (·.addr)).Nodup ∨ (∃ c ∈ cs, c.addr = 0) ∨ (∃ c ∈ cs, c.power < 0) ∨ (∃ c ∈ cs, c.power > cap)) := by
+  unfold ValidChanges PowOK
+  constructor
+  · intro h
+    apply Classical.byContradiction
+    intro hc
+    apply h
+    refine ⟨Classical.byContradiction fun h1 => hc (Or.inl h1), ?_, ?_⟩
+    · intro c hcm e; exact hc (Or.inr (Or.inl ⟨c, hcm, e⟩))
+    · intro c hcm
+      constructor
+      · apply Classical.byContradiction; intro h1
+        exact hc (Or.inr (Or.inr (Or.inl ⟨c, hcm, by omega⟩)))
+      · apply Classical.byContradiction; intro h1
+        exact hc (Or.inr (Or.inr (Or.inr ⟨c, hcm, by omega⟩)))
+  · rintro (h | ⟨c, hc, e⟩ | ⟨c, hc, e⟩ | ⟨c, hc, e⟩) ⟨h1, h2, h3⟩
+    · exact h h1
+    · exact h2 c hc e
+    · have := (h3 c hc).1; omega
+    · have := (h3 c hc).2; omega
+
+/-- **update_rejects_iff** (verification part, proved): on a well-formed set a non-empty change
+list is rejected by a verification step — i.e. with an error other than the internal-consistency
+panic of the application phase (`updateTotalVotingPower` above the cap, empty result, division by
+zero in the rescale; see `UpdateNeverPanicsStatement`) — **iff** it has a duplicate address, the
+zero address (code quirk), a negative power, a power above the cap, removes a non-member, would
+empty the set, or would push the total above the cap.  This includes the `int64` argument for
+`verifyUpdates`: with the deltas applied in ascending order no intermediate sum leaves `int64`
+and the scan fails exactly when the final total exceeds the cap. -/
+theorem update_rejects_iff_partial (vs : ValSet) (cs : List Validator) (hwf : WF vs) (hne : cs ≠ []) :
+    ((∃ e, e ≠ .panic ∧ updateWithChangeSet vs cs true = .error e) ↔
+      (¬ (cs.map (·.addr)).Nodup ∨ (∃ c ∈ cs, c.addr = 0) ∨ (∃ c ∈ cs, c.power < 0) ∨ (∃ c ∈ cs, c.power > cap) ∨
+       (∃ c ∈ cs, c.power = 0 ∧ findVal vs.vals c.addr = none) ∨
+       (∀ v ∈ vs.vals, ∃ c ∈ cs, c.addr = v.addr ∧ c.power = 0) ∧ (∀ c ∈ cs, c.power = 0) ∨
+       cap < Spec.total (vs.vals.filter fun v => (findVal cs v.addr).isNone) + Spec.total cs)) := by
+  obtain ⟨hn, hpos, htot, hcap⟩ := hwf
+  rw [update_rejects_iff_core vs cs hne hn hpos htot hcap, validChanges_iff]
+  show _ ↔ (_ ∨ _ ∨ _ ∨ _ ∨ _ ∨ EmptiesSet vs.vals cs ∨ cap < newTotal vs.vals cs)
+  constructor
+  · rintro ((h | h | h | h) | h | h | h)
+    · exact Or.inl h
+    · exact Or.inr (Or.inl h)
+    · exact Or.inr (Or.inr (Or.inl h))
+    · exact Or.inr (Or.inr (Or.inr (Or.inl h)))
+    · exact Or.inr (Or.inr (Or.inr (Or.inr (Or.inl h))))
+    · exact Or.inr (Or.inr (Or.inr (Or.inr (Or.inr (Or.inl h)))))
+    · exact Or.inr (Or.inr (Or.inr (Or.inr (Or.inr (Or.inr h)))))
+  · rintro (h | h | h | h | h | h | h)
+    · exact Or.inl (Or.inl h)
+    · exact Or.inl (Or.inr (Or.inl h))
+    · exact Or.inl (Or.inr (Or.inr (Or.inl h)))
+    · exact Or.inl (Or.inr (Or.inr (Or.inr h)))
+    · exact Or.inr (Or.inl h)
+    · exact Or.inr (Or.inr (Or.inl h))
+    · exact Or.inr (Or.inr (Or.inr h))
+
+/-- the error class of each rejection (same hypotheses): `unknown` for a removed non-member,
+`overflow` when the resulting total exceeds the cap, else `empty` when the set would be emptied;
+otherwise the update proceeds to the application phase `updateTail`. -/
+theorem update_verification_phase (vs : ValSet) (cs : List Validator) (hwf : WF vs) (hne : cs ≠ [])
+    (hvalid : ValidChanges cs) (hknown : ∀ c ∈ cs, c.power = 0 → findVal vs.vals c.addr ≠ none) :
+    updateWithChangeSet vs cs true =
+      if cap < newTotal vs.vals cs then .error .overflow
+      else if numNew (updatesOf (isort leAddr cs)) vs.vals = 0 &&
+          vs.vals.length = (deletesOf (isort leAddr cs)).length then .error .empty
+      else updateTail vs (updatesOf (isort leAddr cs)) (deletesOf (isort leAddr cs))
+        (newTotal vs.vals cs + sumBy (fun c => oldPow vs.vals c.addr) (deletesOf (isort leAddr cs))) :=
+  update_verified vs cs hne hwf.1 hwf.2.1 hwf.2.2.1 hwf.2.2.2 hvalid hknown
+
+/-- what is missing for the full `UpdateRejectsIffStatement`: after a successful verification the
+application phase never takes one of its panic branches (needs the characterisation of the merge
+`applyUpdates`/`applyRemovals`, i.e. the core of `UpdateResultStatement`). -/
+def UpdateNeverPanicsStatement : Prop :=
+  ∀ (vs : ValSet) (cs : List Validator), WF vs → updateWithChangeSet vs cs true ≠ .error .panic
+
+/-! ## (7) round-by-round = round-skipping -/
+
+/-- **proposer_path_independent**: `k ≥ 1` successive `IncrementProposerPriority(1)` produce exactly
+the validator set — all priorities, the proposer, the total — of one
+`IncrementProposerPriority(k)`, provided that (`PathCtx`, all about the list `l0` obtained from the
+set by the first normalisation) addresses are distinct, `T = Σ power > 0`, priorities are in
+`[-B, B]` with `B + (k+1)·T < 2^63`, `l0` is centred (always true: `centred`), and **no
+intermediate call rescales**: `maxMinDiff ≤ 2T` for the states after `1, …, k−1` rounds.
+This is what lets a node that enters round `r` directly
+(`IncrementProposerPriority(r − cs.Round)`) agree with nodes that went through every round. -/
+theorem proposer_path_independent (vs : ValSet) (k : Nat) (B : Int) (hk : 1 ≤ k) (hne : vs.vals ≠ [])
+    (hpanic : rescalePanics (I64.mul windowFactor vs.total) vs.vals = false)
+    (h : PathCtx vs.total (I64.mul windowFactor vs.total) B k
+      (shiftList (rescaleList (I64.mul windowFactor vs.total) vs.vals))) :
+    iterInc k vs = increment vs (k : Int) :=
+  iterInc_eq_increment vs k B hk hne hpanic h
+
+/-- the set on which the hypothesis "no intermediate rescale" fails -/
+def pathWitness : ValSet :=
+  { vals := [⟨1, 3, 17⟩, ⟨2, 1, -18⟩, ⟨3, 5, 14⟩], proposer := none, total := 9 }
+
+/-- **counterexample without the hypothesis**: powers (3, 1, 5), priorities (17, −18, 14).  After
+the first round the priorities are (9, −10, 1): spread 19 > 2T = 18, so the second
+`IncrementProposerPriority(1)` rescales (halves) while `IncrementProposerPriority(4)` does not.
+Round by round the proposers are 3, 1, 3, **3**; the node that skips to the fourth round computes
+proposer **1**. -/
+theorem proposer_path_dependent_counterexample :
+    (okOf (increment pathWitness 4)).map (·.proposer) = some (some 1) ∧
+    (okOf (iterInc 4 pathWitness)).map (·.proposer) = some (some 3) ∧
+    (okOf (iterInc 1 pathWitness)).map (fun s => maxMinDiff s.vals) = some 19 := by
+  refine ⟨?_, ?_, ?_⟩ <;> decide
+
+/-! ## non-vacuity and the F1 witness -/
+
 
 /-- the F1 witness history: `{1000, 999}` then both powers become 1 -/
 def f1Start : Except Err ValSet := newValidatorSet [v 1 1000 0, v 2 999 0]
